@@ -1,9 +1,61 @@
-"""String operations (z3/cvc5 string theory)."""
+"""String methods (z3/cvc5 string theory)."""
 import z3
 from .types import *
 from .values import *
 from .state import *
 
 
+def _q():
+    return z3.StringVal("'")
+
+
+def plain(s):
+    n = z3.Length(s)
+    return z3.Not(z3.And(n >= 1, z3.Or(z3.SubString(s, 0, 1) == _q(), z3.SubString(s, n - 1, 1) == _q())))
+
+
 class StrMixin(object):
-    pass
+    def str_method(self, obj, meth, args, kwargs, node):
+        s = obj.t
+        if meth == "strip" and len(args) == 1:
+            c = z3.simplify(args[0].t)
+            if z3.is_string_value(c) and len(c.as_string()) == 1:
+                # s.strip(c): uninterpreted, pinned down on the two shapes that matter:
+                #   no c at either end -> s;  c + body + c with no c at either end of body -> body
+                ch = z3.StringVal(c.as_string())
+                f = z3.Function("strip_%d" % ord(c.as_string()), z3.StringSort(), z3.StringSort())
+                n = z3.Length(s)
+
+                def pl(x):
+                    m = z3.Length(x)
+                    return z3.Not(z3.And(m >= 1, z3.Or(z3.SubString(x, 0, 1) == ch, z3.SubString(x, m - 1, 1) == ch)))
+                body = z3.SubString(s, 1, n - 2)
+                self.ctx.assume(z3.Implies(pl(s), f(s) == s))
+                self.ctx.assume(z3.Implies(z3.And(n >= 2, z3.SubString(s, 0, 1) == ch, z3.SubString(s, n - 1, 1) == ch,
+                                                  pl(body)), f(s) == body))
+                self.assumptions.add("str.strip(c) modelled only for strings without c at the ends and for "
+                                     "c+body+c with body free of c at its ends (other shapes unconstrained)")
+                return vstr(f(s))
+        if meth == "startswith" and len(args) == 1 and args[0].ty == STR:
+            return vbool(z3.PrefixOf(args[0].t, s))
+        if meth == "endswith" and len(args) == 1 and args[0].ty == STR:
+            return vbool(z3.SuffixOf(args[0].t, s))
+        if meth == "find" and len(args) in (1, 2) and args[0].ty == STR:
+            start = args[1].t if len(args) == 2 else z3.IntVal(0)
+            return vint(z3.IndexOf(s, args[0].t, start))
+        if meth == "replace" and len(args) == 2:
+            a = z3.simplify(args[0].t)
+            return vstr(self.replace_all(s, args[0].t, args[1].t))
+        if meth in ("lower", "upper"):
+            f = z3.Function("str_" + meth, z3.StringSort(), z3.StringSort())
+            return vstr(f(s))
+        if meth in ("isdigit", "isalpha", "isalnum", "islower", "isupper", "isspace"):
+            f = z3.Function("str_" + meth, z3.StringSort(), z3.BoolSort())
+            return vbool(f(s))
+        raise Unsupported("str.%s" % meth)
+
+    def replace_all(self, s, a, b):
+        f = getattr(z3, "ReplaceAll", None)
+        if f is None:
+            raise Unsupported("str.replace (replace_all unavailable)")
+        return f(s, a, b)
